@@ -327,7 +327,7 @@ class ConcurrentTaskSet : public TaskSetBase {
           static_cast<ssize_t>(static_cast<float>(pool_.numThreads()) * poolRecursiveLoadFactor);
       if ((detail::PerPoolPerThreadInfo::isPoolRecursive(&pool_) && curWork > quickFactor) ||
           curWork > pool_.poolLoadFactor_.load(std::memory_order_relaxed)) {
-        if (!detail::PerPoolPerThreadInfo::canInlineSchedule()) {
+        if (canceled() || !detail::PerPoolPerThreadInfo::canInlineSchedule()) {
           pool_.schedule(packageTask(std::forward<F>(f)), ForceQueuingTag());
           return;
         }
@@ -470,7 +470,7 @@ class ConcurrentTaskSet : public TaskSetBase {
           static_cast<ssize_t>(static_cast<float>(pool_.numThreads()) * poolRecursiveLoadFactor);
       if ((detail::PerPoolPerThreadInfo::isPoolRecursive(&pool_) && curWork > quickFactor) ||
           curWork > pool_.poolLoadFactor_.load(std::memory_order_relaxed)) {
-        if (!detail::PerPoolPerThreadInfo::canInlineSchedule()) {
+        if (canceled() || !detail::PerPoolPerThreadInfo::canInlineSchedule()) {
           pool_.schedulePlaced(packageTask(std::forward<F>(f)), ForceQueuingTag());
           return;
         }
